@@ -47,21 +47,29 @@ def digest(obj):
 
 
 def run_history(driver, history):
-    """Replay a history on a fresh SUT; return (state, observations, viols)."""
+    """Replay a history on a fresh SUT and check the final state.
+
+    Prefix states are not re-checked (``check`` may be destructive, e.g. it
+    may close a file to inspect it); BFS has checked them before.
+    """
     st = driver.fresh()
     obs = []
-    viols = []
     for op in history:
         obs.append(driver.apply(st, op))
-        viols = driver.check(st)
-        if viols:
-            break
+    viols = driver.check(st)
     return st, obs, viols
+
+
+def build(driver, history):
+    st = driver.fresh()
+    for op in history:
+        driver.apply(st, op)
+    return st
 
 
 def _expand(args):
     driver, history, devs, max_dev = args
-    st, _, _ = run_history(driver, history)
+    st = build(driver, history)
     try:
         menu = driver.ops(st)
     finally:
@@ -91,8 +99,8 @@ def bfs(driver, max_depth, max_dev=0, workers=None, log=None,
         max_states=None):
     """Exhaustive BFS up to max_depth / max_dev. Returns a stats dict."""
     st0 = driver.fresh()
-    k0 = digest(driver.canon(st0))
     v0 = driver.check(st0)
+    k0 = digest(driver.canon(st0))
     driver.close(st0)
     seen = {k0: 0}          # canon -> fewest deviations it was reached with
     frontier = [([], 0)]
